@@ -34,6 +34,15 @@ func basePatient() *ppb.Patient {
 
 // temporalObservation carries one element of every temporal type: valueTime 14:30:15.250, component valueTime
 // 00:00:01 / 23:59:59 / 12:00, effectiveDateTime 2024-03-10T01:30:00+05:30, issued 2024-03-09T20:00:00.123Z.
+// dstObservation: effective and issued are written with the offset Newfoundland uses in winter, one day before its
+// clocks change (2020-03-08).
+func dstObservation() *opb.Observation {
+	o := temporalObservation()
+	o.Effective = &opb.Observation_EffectiveX{Choice: &opb.Observation_EffectiveX_DateTime{DateTime: &dtpb.DateTime{ValueUs: 1583595000000000, Timezone: "-03:30", Precision: dtpb.DateTime_SECOND}}}
+	o.Issued = &dtpb.Instant{ValueUs: 1583595000000000, Timezone: "-03:30", Precision: dtpb.Instant_SECOND}
+	return o
+}
+
 func temporalObservation() *opb.Observation {
 	tm := func(h, m, s, ms int64, p dtpb.Time_Precision) *dtpb.Time {
 		return &dtpb.Time{ValueUs: ((h*60+m)*60+s)*1e6 + ms*1000, Precision: p}
